@@ -10,6 +10,7 @@ package lnwire
 
 import (
 	"bytes"
+	"errors"
 	"image/color"
 	"io"
 
@@ -410,22 +411,56 @@ func c10HasUnknown(recs []c10TLVRec, known ...uint64) bool {
 
 // ---------------------------------------------------------------- item 5: whole messages
 
+var c10Gx = []byte{
+	0x79, 0xbe, 0x66, 0x7e, 0xf9, 0xdc, 0xbb, 0xac, 0x55, 0xa0, 0x62, 0x95, 0xce, 0x87, 0x0b, 0x07,
+	0x02, 0x9b, 0xfc, 0xdb, 0x2d, 0xce, 0x28, 0xd9, 0x59, 0xf2, 0x81, 0x5b, 0x16, 0xf8, 0x17, 0x98,
+}
+
+var c10Gy = []byte{
+	0x48, 0x3a, 0xda, 0x77, 0x26, 0xa3, 0xc4, 0x65, 0x5d, 0xa4, 0xfb, 0xfc, 0x0e, 0x11, 0x08, 0xa8,
+	0xfd, 0x17, 0xb4, 0x48, 0xa6, 0x85, 0x54, 0x19, 0x9c, 0x47, 0xd0, 0x8f, 0xfb, 0x10, 0xd4, 0xb8,
+}
+
 // c10KeyBytes returns one of three concrete 33-byte strings for a public-key
-// field: the secp256k1 generator G, -G, and a string that is not a curve
-// point. (Elliptic-curve arithmetic on symbolic bytes is outside the engine;
+// field: the secp256k1 generator G, -G, and a string with an invalid format
+// byte. (Elliptic-curve arithmetic on symbolic bytes is outside the engine;
 // key bytes are therefore concrete, everything else in the body is symbolic.)
 func c10KeyBytes(k int) []byte {
-	gx := []byte{
-		0x79, 0xbe, 0x66, 0x7e, 0xf9, 0xdc, 0xbb, 0xac, 0x55, 0xa0, 0x62, 0x95, 0xce, 0x87, 0x0b, 0x07,
-		0x02, 0x9b, 0xfc, 0xdb, 0x2d, 0xce, 0x28, 0xd9, 0x59, 0xf2, 0x81, 0x5b, 0x16, 0xf8, 0x17, 0x98,
-	}
 	switch k {
 	case 0:
-		return c10Cat([]byte{2}, gx)
+		return c10Cat([]byte{2}, c10Gx)
 	case 1:
-		return c10Cat([]byte{3}, gx)
+		return c10Cat([]byte{3}, c10Gx)
 	}
-	return c10Cat([]byte{5}, gx) // 0x05 is not a compressed-key format byte
+	return c10Cat([]byte{5}, c10Gx) // 0x05 is not a compressed-key format byte
+}
+
+// c10ParsePubKey stands in for btcec.ParsePubKey in the symbolic run only
+// (native replay runs the real function): exact on the three strings of
+// c10KeyBytes, every other input is outside the explored domain. It avoids
+// re-interpreting a field square root on every path.
+func c10ParsePubKey(b []byte) (*btcec.PublicKey, error) {
+	if len(b) != 33 {
+		vAssume(false)
+	}
+	if b[0] == 5 {
+		return nil, errors.New("invalid public key: unsupported format: 5")
+	}
+	vAssume((b[0] == 2 || b[0] == 3) && bytes.Equal(b[1:], c10Gx))
+	var x, y btcec.FieldVal
+	x.SetByteSlice(c10Gx)
+	y.SetByteSlice(c10Gy)
+	if b[0] == 3 {
+		y.Negate(1).Normalize()
+	}
+	return btcec.NewPublicKey(&x, &y), nil
+}
+
+func c10Config() {
+	vUnwind(200)
+	vReplace("github.com/btcsuite/btcd/btcec/v2.ParsePubKey", "github.com/lightningnetwork/lnd/lnwire.c10ParsePubKey")
+	vAssumption("public-key fields hold one of three concrete strings (G, -G, invalid format byte 0x05); btcec.ParsePubKey is replaced in the symbolic run by a table for exactly these strings (native replay runs the real function)")
+	vAssumption("declared TLV record lengths are <= 12 or > 65535")
 }
 
 func c10EqCustom(a, b CustomRecords) bool {
@@ -568,7 +603,11 @@ func c10MsgBody(i int, spec c10Msg) (body []byte, tlvOff int) {
 	}
 	body = vBytes("b", n)
 	if spec.keyOff >= 0 && n >= spec.keyOff+33 {
-		copy(body[spec.keyOff:], c10KeyBytes(vChoice("key", 3)))
+		k := vChoice("key", 3)
+		if k != 0 && e != 0 {
+			vAssume(false) // -G and the invalid key are explored with an empty extension only
+		}
+		copy(body[spec.keyOff:], c10KeyBytes(k))
 	}
 	if i == 4 {
 		// Shutdown: the declared address length decides where the TLV part
@@ -590,7 +629,7 @@ func c10MsgBody(i int, spec c10Msg) (body []byte, tlvOff int) {
 // whose extension is a TLV stream are accepted only if the stream is canonical
 // per the BOLT-1 reference.
 func VerifC10MsgBytes() {
-	vUnwind(200)
+	c10Config()
 	i := vChoice("msg", c10NumMsgs)
 	spec := c10MsgTable(i)
 	body, tlvOff := c10MsgBody(i, spec)
@@ -637,7 +676,7 @@ func VerifC10MsgBytes() {
 // ChannelReestablish and ClosingSigned rebuild ExtraData from their known
 // records in Encode.
 func VerifC10MsgUnknownKept() {
-	vUnwind(200)
+	c10Config()
 	which := vChoice("msg", 3)
 	i := []int{2, 3, 5}[which]
 	spec := c10MsgTable(i)
